@@ -7,6 +7,7 @@
 from __future__ import annotations
 
 import binascii
+import copy
 from typing import Callable
 
 from suit_generator.suit.envelope import SuitEnvelopeTagged, SuitEnvelopeTaggedSimplified
@@ -50,14 +51,29 @@ class InputOutputMixin:
         return data
 
     @classmethod
+    def _parse_submanifest(cls, hex_data: str) -> dict | None:
+        """Parse a sub-manifest, return None if it cannot be represented as a nested envelope without loss."""
+        binary_data = binascii.a2b_hex(hex_data)
+        try:
+            sub_manifest = SuitEnvelopeTagged.from_cbor(binary_data).to_obj()
+            if cls.prepare_suit_data(copy.deepcopy(sub_manifest)) != binary_data:
+                return None
+        except Exception:
+            # not a complete envelope (for example a payload which only starts like one) - keep it as it is
+            return None
+        return sub_manifest
+
+    @classmethod
     def parse_json_submanifests(cls, data: dict) -> dict:
         """Parse sub-manifests."""
         if suit_integrated_dependencies.name in data["SUIT_Envelope_Tagged"]:
             for key in data["SUIT_Envelope_Tagged"][suit_integrated_dependencies.name]:
+                dependencies = data["SUIT_Envelope_Tagged"][suit_integrated_dependencies.name]
+                sub_manifest = cls._parse_submanifest(dependencies[key])
+                if sub_manifest is None:
+                    continue
                 # create anchor in the root manifest
-                data["SUIT_Envelope_Tagged"][suit_integrated_dependencies.name][key] = SuitEnvelopeTagged.from_cbor(
-                    binascii.a2b_hex(data["SUIT_Envelope_Tagged"][suit_integrated_dependencies.name][key])
-                ).to_obj()
+                data["SUIT_Envelope_Tagged"][suit_integrated_dependencies.name][key] = sub_manifest
         return data
 
     @classmethod
@@ -81,12 +97,12 @@ class InputOutputMixin:
                 # SUIT_Dependent_Manifest need to be created first to be dumped first and to be used as anchors source
                 data = {**{"SUIT_Dependent_Manifests": {}}, **data}
             for key in data["SUIT_Envelope_Tagged"][suit_integrated_dependencies.name]:
+                dependencies = data["SUIT_Envelope_Tagged"][suit_integrated_dependencies.name]
+                sub_manifest = cls._parse_submanifest(dependencies[key])
+                if sub_manifest is None:
+                    continue
                 # create new entry in the SUIT_Dependent_Manifest
-                data["SUIT_Dependent_Manifests"][f"{key}_envelope"] = cls.parse_yaml_submanifests(
-                    SuitEnvelopeTagged.from_cbor(
-                        binascii.a2b_hex(data["SUIT_Envelope_Tagged"][suit_integrated_dependencies.name][key])
-                    ).to_obj()
-                )
+                data["SUIT_Dependent_Manifests"][f"{key}_envelope"] = cls.parse_yaml_submanifests(sub_manifest)
                 # create anchor in the root manifest
                 data["SUIT_Envelope_Tagged"][suit_integrated_dependencies.name][key] = data["SUIT_Dependent_Manifests"][
                     f"{key}_envelope"
